@@ -21,7 +21,7 @@ SHARD_DEADLINE = {'quick': 300, 'thorough': 3300}
 
 
 def floors(tier):
-    return {'distinct_nontrivial': 3000 if tier == 'quick' else 60000, 'generic_executions': 3000,
+    return {'distinct_nontrivial': 6000 if tier == 'quick' else 60000, 'generic_executions': 3000,
             'numeric_reexecutions': 200, 'permuted_order_cases': 200, 'empty_operand_cases': 20,
             'distinct_generated_functions': 2500, 'cse_false_cases': 100}
 
@@ -38,22 +38,22 @@ def plan(tier, seed):
             U += u(c, 'exh_ordered')
         for c in d2:
             U += u(c, 'exh_canon', 2)
-            U += u(c, 'sparse', 1, count=40, cap=4, perm=1.0)
+            U += u(c, 'sparse', 1, count=120, cap=4, perm=1.0)
         for c in d2[:2]:
             U += u(dict(c, opts={'cse': False}), 'exh_canon', 1)
         for c in rng.sample(d3, 8) + [{'p': 3, 'q': 0, 'r': 0}, {'p': 2, 'q': 0, 'r': 1}]:
-            U += u(c, 'random', 1, count=60, cap=8)
+            U += u(c, 'random', 1, count=200, cap=8)
             U += u(c, 'special', 1, cap=8)
         U += u(dict({'p': 3, 'q': 0, 'r': 0}, opts={'cse': False}), 'random', 1, count=60, cap=8)
         for c in rng.sample(gen.pqr_all(4, 4), 6) + rng.sample(gen.pqr_all(5, 5), 4):
-            U += u(c, 'gradeblocks', 1, count=25, cap=10)
-            U += u(c, 'sparse', 1, count=40, cap=6)
+            U += u(c, 'gradeblocks', 1, count=60, cap=10)
+            U += u(c, 'sparse', 1, count=120, cap=6)
         for c in rng.sample(gen.pqr_all(6, 6), 2) + [{'signature': gen.random_sig(rng, 7)}]:
-            U += u(c, 'sparse', 1, count=40, cap=5)
+            U += u(c, 'sparse', 1, count=100, cap=5)
         for _ in range(10):
-            U += u(gen.random_custom_cfg(rng, rng.choice((2, 3, 3, 4))), 'random', 1, count=40, cap=6)
+            U += u(gen.random_custom_cfg(rng, rng.choice((2, 3, 3, 4))), 'random', 1, count=120, cap=6)
         for c in gen.NAMED:
-            U += u(c, 'sparse', 1, count=40, cap=6)
+            U += u(c, 'sparse', 1, count=120, cap=6)
         for s in (0, 2):
             U += u({'p': 2, 'q': 1, 'r': 0, 'start_index': s}, 'random', 1, count=40, cap=8)
         nshards = 16
